@@ -31,10 +31,10 @@ TRUSTED = [
 ASSUMPTIONS = ["the duality gap is accepted up to 20 × MultiTaskLasso's default tol=1e-4 × ‖W_c‖²"]
 
 
-def objective(Psi, W, S, alpha):
+def objective(Psi, W, S, alpha, centred=True):
     r = Psi.shape[0]
-    Xc = Psi - Psi.mean(axis=0)
-    Wc = W - W.mean(axis=0)
+    Xc = Psi - Psi.mean(axis=0) if centred else Psi
+    Wc = W - W.mean(axis=0) if centred else W
     R = Wc - Xc @ S
     return 0.5 / r * float(np.sum(R * R)) + alpha * float(np.sum(np.sqrt(np.sum(S * S, axis=1))))
 
@@ -48,9 +48,18 @@ def check(ctx, idx):
     bk = rng.choice(models.BASIS_KINDS)
     nm = None if bk == "identity" else rng.randint(2, min(X.shape[0], nf))
     alpha = rng.choice([0.01, 0.05, 0.1, 0.3, 1.0])
-    base = {"X": X.tolist(), "y": y.tolist(), "basis": bk, "n_modes": nm, "l1_penalty": alpha, "index": idx}
+    # documented optimizer keywords are forwarded to the solver: for two classes the fit is still exact (without an
+    # intercept the common offset is simply 0); for more classes the objective is the un-centred one
+    kws = {}
+    if rng.random() < 0.4:
+        kws["fit_intercept"] = False
+    if ncls == 2 and rng.random() < 0.3:
+        kws["precompute"] = rng.choice([True, False])
+    centred = kws.get("fit_intercept", True)
+    base = {"X": X.tolist(), "y": y.tolist(), "basis": bk, "n_modes": nm, "l1_penalty": alpha, "index": idx,
+            "fit_kwargs": dict(kws)}
     ctx.evaluations += 1
-    ctx.count(f"{bk}/{'binary' if ncls == 2 else 'multi'}")
+    ctx.count(f"{bk}/{'binary' if ncls == 2 else 'multi'}{'' if centred else '/no_intercept'}")
     model = SSPOC(basis=models.make_basis(bk, nm), l1_penalty=alpha, n_sensors=min(2, nf))
     import pysensors.utils._optimizers as om
     seen = []
@@ -64,7 +73,7 @@ def check(ctx, idx):
 
     om.MultiTaskLasso = TapMTL
     try:
-        model.fit(X.copy(), y.copy(), quiet=True, refit=False)
+        model.fit(X.copy(), y.copy(), quiet=True, refit=False, **kws)
     except Exception as e:
         ctx.count("fit_failed:" + type(e).__name__)
         return
@@ -109,8 +118,8 @@ def check(ctx, idx):
         W = w                                         # r × c
         if W.shape != (r, ncls):
             return
-        Xc = Psi - Psi.mean(axis=0)
-        Wc = W - W.mean(axis=0)
+        Xc = Psi - Psi.mean(axis=0) if centred else Psi
+        Wc = W - W.mean(axis=0) if centred else W
         R = Wc - Xc @ s
         norms = np.sqrt(np.sum(s * s, axis=1))
         # duality gap of the group-lasso problem with sparsity weight α = l1_penalty (scikit-learn's own stopping
@@ -129,7 +138,7 @@ def check(ctx, idx):
         budget = 20 * 1e-4 * float(np.sum(Wc * Wc)) + 1e-12
         if gap > budget:
             return bad("duality-gap", f"the weights do not minimise the group-lasso objective with sparsity weight l1_penalty={alpha}: duality gap {gap:.3e} > {budget:.3e}", gap=gap)
-        f0 = objective(Psi, W, s, alpha)
+        f0 = objective(Psi, W, s, alpha, centred)
         nrng = ctx.np_rng(idx)
         for t in range(12):
             P = s.copy()
@@ -138,8 +147,8 @@ def check(ctx, idx):
             else:
                 j = int(nrng.integers(0, nf))
                 P[j] = P[j] * nrng.uniform(0, 1.5) + (nrng.normal(scale=0.05, size=ncls) if nrng.random() < 0.5 else 0)
-            if objective(Psi, W, P, alpha) < f0 - (budget / r + 1e-9 * (1 + abs(f0))):
-                return bad("not-minimal", f"a perturbation lowers the group-lasso objective ({objective(Psi, W, P, alpha):.6g} < {f0:.6g})")
+            if objective(Psi, W, P, alpha, centred) < f0 - (budget / r + 1e-9 * (1 + abs(f0))):
+                return bad("not-minimal", f"a perturbation lowers the group-lasso objective ({objective(Psi, W, P, alpha, centred):.6g} < {f0:.6g})")
         if 0 < int(np.count_nonzero(norms)) < nf:
             ctx.nontriv((bk, ncls, X.shape, alpha, tuple(np.nonzero(norms)[0].tolist())))
     ctx.sample({"basis": bk, "classes": ncls, "shape": list(X.shape), "l1_penalty": alpha, "r": r,
